@@ -828,3 +828,38 @@ def _custom_iter2(self, ex, st, fr, node, it, ordinal):
 
 
 MocloModels.custom_iter = _custom_iter2
+
+
+_prev_from_elem5 = MocloModels.from_elem
+
+
+def _from_elem5(self, ex, st, t):
+    if t.sort == INT and getattr(self, "elem_kind", None) == "CitFeature":
+        return MC.mk_citfeature(st, t)
+    return _prev_from_elem5(self, ex, st, t)
+
+
+MocloModels.from_elem = _from_elem5
+_prev_custom_iter3 = MocloModels.custom_iter
+
+
+def _custom_iter3(self, ex, st, fr, node, it, ordinal):
+    """`for i, ref in enumerate(<indexed citation list>)`: an index loop with a sidecar invariant; the entry at position i
+    (not yet rewritten) is the Reference cite(f, i)"""
+    inner = st.get(it, "inner") if isinstance(it, VObj) and it.kind == "enumerate" else None
+    if isinstance(inner, VObj) and inner.kind == "CitListIdx":
+        spec = ex.loopspecs.get(ordinal) if ordinal is not None else None
+        if spec is None:
+            raise Unsupported("indexed citation loop without invariant")
+        fid = st.get(inner, "ident").t
+
+        def elem(ex_, s, k):
+            s_ = s
+            return VTuple([VT(k), MC.mk_reference(s_, MC.cite(fid, k))])
+
+        index = dict(var=node.target, lo=tm.I(0), hi=tm.imax(MC.ncit(fid), 0), elem=elem)
+        return ex.invariant_loop(node, st, fr, spec, ordinal, index=index)
+    return _prev_custom_iter3(self, ex, st, fr, node, it, ordinal)
+
+
+MocloModels.custom_iter = _custom_iter3
